@@ -72,7 +72,11 @@ inline IRange<T> irange(Dom d)
   case D_DRU:
     return bounded(1, 4, true);
   case D_MADD: {
-    T hi = (T)std::min<u128>((u128)L::max(), 2000);
+    // a*b+c is evaluated in float and converted back to T: it must be exact (< 2^24) and fit T
+    u128 h = 2000;
+    while (h * h + h > (u128)L::max())
+      --h;
+    T hi = (T)h;
     return IRange<T>{sgn ? (T)(-hi) : (T)0, hi, false};
   }
   default:
